@@ -512,8 +512,23 @@ func kindSeed(name string) uint64 {
 
 // One evaluates a single, deterministically chosen case (grids, regression cases,
 // enumerations that want fingerprinting).  Returns false if it failed.
+// trackCase saves the case about to be evaluated, so that the driver can attribute a
+// process death the harness cannot recover from (the runtime's fatal "out of memory"
+// when a parser allocates by a claimed count) to the input that caused it.
+func trackCase(prop, kind string, js []byte) {
+	if outDir == "" || prop != "C08" {
+		return
+	}
+	doc, _ := json.Marshal(map[string]any{"property": prop, "kind": kind, "case": json.RawMessage(js)})
+	os.WriteFile(filepath.Join(outDir, "current-case.json"), doc, 0o644)
+}
+
 func (k *Kind[C]) One(ev *Ev, c C) bool {
 	o := &Obs{}
+	if k.Prop == "C08" {
+		pre, _ := json.Marshal(c)
+		trackCase(k.Prop, k.Name, pre)
+	}
 	err := safeEval(k.Eval, c, o)
 	js, _ := json.Marshal(c)
 	ev.record(k.Name, js, o)
@@ -548,6 +563,13 @@ func (k *Kind[C]) Run(t *testing.T, ev *Ev, checks int) {
 		rapid.Check(st, func(rt *rapid.T) {
 			c := k.Gen(rt)
 			o := &Obs{}
+			if k.Prop == "C08" {
+				pre, _ := json.Marshal(c)
+				trackCase(k.Prop, k.Name, pre)
+				if runs%200 == 0 {
+					ev.flush()
+				}
+			}
 			err := safeEval(k.Eval, c, o)
 			js, _ := json.Marshal(c)
 			runs++
